@@ -272,13 +272,28 @@ theorem C37_ptrs_valid [DecidableEq α] (ops : List (Op α)) (h : Nat) (s : SetS
   simp only [hlive, if_true] at hx
   exact getElem?_some_lt hx
 
-/-- every buffer a live set iterates over is live and owned by it, and distinct sets share no buffer -/
+/-- every buffer a live set iterates over (`old_bufs` and `current_buf`) exists, is live, has this
+    set as its owner, and holds no more elements than its capacity -/
 theorem C37_buffers_owned [DecidableEq α] (ops : List (Op α)) (h : Nat) (s : SetS)
     (hs : ((World.empty : World α).run ops).1.sets[h]? = some s) (hl : s.live = true) :
     ∀ b ∈ s.bufIds, ∃ B, ((World.empty : World α).run ops).1.bufs[b]? = some B ∧ B.live = true ∧
       B.owner = h ∧ B.elems.length ≤ B.cap := by
   obtain ⟨hw, _, _⟩ := run_refines ops (World.empty : World α) winv_empty
   exact (hw h s hs hl).owned
+
+/-- two distinct live sets share no buffer (a buffer has one owner) -/
+theorem C37_sets_share_no_buffer [DecidableEq α] (ops : List (Op α)) (h h' : Nat) (s s' : SetS)
+    (hs : ((World.empty : World α).run ops).1.sets[h]? = some s) (hl : s.live = true)
+    (hs' : ((World.empty : World α).run ops).1.sets[h']? = some s') (hl' : s'.live = true)
+    (hne : h ≠ h') : ∀ b ∈ s.bufIds, b ∉ s'.bufIds := by
+  intro b hb hb'
+  obtain ⟨B, hB, _, ho, _⟩ := C37_buffers_owned ops h s hs hl b hb
+  obtain ⟨B', hB', _, ho', _⟩ := C37_buffers_owned ops h' s' hs' hl' b hb'
+  rw [hB] at hB'; cases hB'
+  exact hne (ho.symm.trans ho')
+
+-- two live sets exist after `new; new` (handles 0 and 1)
+example : (((World.empty : World Nat).run [.new, .new]).1.sets.map (·.live)) = [true, true] := by decide
 
 /-- the values of a set are pairwise distinct in every reachable state -/
 theorem C37_contents_nodup [DecidableEq α] (ops : List (Op α)) (h : Nat) (l : List α)
